@@ -298,7 +298,10 @@ def bilin_inv(
 
         H = (Fs - f) ** 2 + (Gs - g) ** 2
         # print t, H
-        if np.all(H < tol):
+        # Each target is iterated until its own residual is small enough,
+        # so that the result for a target does not depend on the other targets
+        active = ~(H < tol)
+        if not np.any(active):
             break
 
         # Estimate Jacobi matrix
@@ -312,8 +315,8 @@ def bilin_inv(
         # incr = - np.dot(Jinv, [Fs-f, Gs-g])
         # x = x + incr[0], y = y + incr[1]
         det = Fx * Gy - Fy * Gx
-        x -= (Gy * (Fs - f) - Fy * (Gs - g)) / det
-        y -= (-Gx * (Fs - f) + Fx * (Gs - g)) / det
+        x = np.where(active, x - (Gy * (Fs - f) - Fy * (Gs - g)) / det, x)
+        y = np.where(active, y - (-Gx * (Fs - f) + Fx * (Gs - g)) / det, y)
 
     return x, y
 
